@@ -5,7 +5,7 @@
    What one scope (module or class body) looks like while it is being walked:
      contents : Documentable.contents, an insertion ordered dict  -> association list, first insertion order kept
      old      : the objects handleDuplicate renamed `name i`       -> list in order of renaming (i = rank among equal names)
-     imps     : _localNameToFullName_map (imports and aliases)     -> name |-> Some external-name | None (something local)
+     imps     : _localNameToFullName_map (imports and aliases)     -> name |-> impval
      cur      : ASTBuilder.currentAttr                             -> the name of that Attribute in the scope it lives in
    Enclosing scopes are passed down read-only (`outer`, innermost first) for name expansion of base classes.
 
@@ -25,7 +25,14 @@ Inductive obj : Type :=
 | OAttr (k : akind) (doc : option text) (ann : option annot) (val : option aval).
 
 Definition contents_t := list (name * obj).
-Definition imps_t := list (name * option name).
+
+(* _localNameToFullName_map: what an imported or aliased local name expands to, as far as the model tracks it *)
+Inductive impval : Type :=
+| IVExt (full : name)                                         (* an external (unbound / builtin) name *)
+| IVLocal                                                     (* something of this package that is not tracked *)
+| IVClass (exc : bool) (ih : list (name * summary))           (* a class of another module: is_exception, members (own + inherited) *)
+| IVModule (classes : list (name * (bool * list (name * summary)))).   (* a module of the package and its classes *)
+Definition imps_t := list (name * impval).
 
 Record st := mkSt { contents : contents_t; old : contents_t; imps : imps_t; cur : option name }.
 Definition empty_st : st := mkSt [] [] [] None.
@@ -170,7 +177,7 @@ Section WithClean.
   Fixpoint fwalk_stmt (in_class : bool) (inh : list (name * summary)) (x : stmt) (s : st) {struct x} : st :=
     match x with
     | Def _ _ _ _ => s                        (* _handleFunctionDef: inner function -> SkipNode *)
-    | Class _ _ _ => s                        (* visit_ClassDef: class in function -> SkipNode *)
+    | Class _ _ _ _ => s                      (* visit_ClassDef: class in function -> SkipNode *)
     | Assign ts r =>
         fold_left (fun s t => match t with
                               | TSelf a => handle_instance_var in_class inh a None (Some r) s
@@ -225,21 +232,45 @@ Section WithClean.
     end.
 
   (* ---- name expansion of a base class (Documentable.expandName + System.objForFullName) ------------- *)
-  Inductive resolved := RClass (o : obj) | RLocal | RExternal (full : name).
+  (* the first scope, from the innermost outwards, whose contents or import map knows the name *)
+  Inductive found := FObj (o : obj) | FImp (v : impval) | FExt (n : name).
 
-  Fixpoint resolve (chain : list (contents_t * imps_t)) (b : name) : resolved :=
+  Fixpoint find_name (chain : list (contents_t * imps_t)) (b : name) : found :=
     match chain with
-    | [] => RExternal b
+    | [] => FExt b
     | (c, im) :: rest =>
         match lookup b c with
-        | Some (OClass e d cc oo ih) => RClass (OClass e d cc oo ih)
-        | Some _ => RLocal
+        | Some o => FObj o
         | None => match lookup b im with
-                  | Some (Some ext) => RExternal ext
-                  | Some None => RLocal
-                  | None => resolve rest b
+                  | Some v => FImp v
+                  | None => find_name rest b
                   end
         end
+    end.
+
+  Inductive resolved := RClass (o : obj) | RImported (exc : bool) (ih : list (name * summary)) | RLocal | RExternal (full : name).
+
+  (* a base class expression: a name, or module.Name for an imported module; longer dotted names and attribute access
+     on local classes are not tracked (RLocal) *)
+  Definition resolve (chain : list (contents_t * imps_t)) (b : list name) : resolved :=
+    match b with
+    | [x] =>
+        match find_name chain x with
+        | FObj (OClass e d cc oo ih) => RClass (OClass e d cc oo ih)
+        | FObj _ => RLocal
+        | FImp (IVClass e ih) => RImported e ih
+        | FImp (IVExt n) => RExternal n
+        | FImp _ => RLocal
+        | FExt n => RExternal n
+        end
+    | [m; x] =>
+        match find_name chain m with
+        | FImp (IVModule cls) => match lookup x cls with Some (e, ih) => RImported e ih | None => RLocal end
+        | FImp (IVExt n) => RExternal (n ++ t_dot :: x)
+        | FExt n => RExternal (n ++ t_dot :: x)
+        | _ => RLocal
+        end
+    | _ => RLocal
     end.
 
   (* is_exception, by the time defaultPostProcess runs, for bases resolved when the class statement was visited *)
@@ -247,6 +278,7 @@ Section WithClean.
     match r with
     | RClass (OClass e _ _ _ _) => e
     | RClass _ => false
+    | RImported e _ => e
     | RLocal => false
     | RExternal full => mem full std_lib_exceptions
     end.
@@ -254,16 +286,27 @@ Section WithClean.
   Definition base_inh (r : resolved) : list (name * summary) :=
     match r with
     | RClass (OClass _ _ c _ ih) => summary_of c ++ ih
+    | RImported _ ih => ih
     | _ => []
     end.
 
   (* ---- _handleAliasing / _handleModuleVar / _handleClassVar / _handleOldSchoolMethodDecoration ------ *)
-  (* the full name an alias target expands to, as far as the model tracks it: Some n = external name n *)
-  Definition expand_ext (chain : list (contents_t * imps_t)) (y : name) : option name :=
-    match resolve chain y with RExternal full => Some full | _ => None end.
+  (* what an alias target expands to, as far as the model tracks it *)
+  Definition expand_alias (chain : list (contents_t * imps_t)) (y : name) : impval :=
+    match find_name chain y with FExt n => IVExt n | FImp v => v | FObj _ => IVLocal end.
 
-  Definition set_imp (n : name) (v : option name) (s : st) : st :=
+  Definition set_imp (n : name) (v : impval) (s : st) : st :=
     mkSt (contents s) (old s) ((n, v) :: imps s) (cur s).
+
+  Definition summ_of_msum (m : msum) : summary :=
+    match m with MNonAttr => SNonAttr | MAttr true => SAttr KInstanceVar | MAttr false => SAttr KClassVar end.
+  Definition members_conv (ms : members_t) : list (name * summary) := map (fun p => (fst p, summ_of_msum (snd p))) ms.
+  Definition impval_of (i : impinfo) : impval :=
+    match i with
+    | IOther => IVLocal
+    | IClass e ms => IVClass e (members_conv ms)
+    | IModule cls => IVModule (map (fun c => (fst c, (fst (snd c), members_conv (snd (snd c))))) cls)
+    end.
 
   Definition handle_var (default : akind) (flow : bool) (n : name) (ann : option annot) (expr : option rhs)
              (aug : bool) (s : st) : st :=
@@ -305,7 +348,7 @@ Section WithClean.
     match lookup n (contents s) with
     | Some _ => None
     | None => match expr with
-              | Some (RName y) => Some (set_imp n (expand_ext ((contents s, imps s) :: chain) y) s)
+              | Some (RName y) => Some (set_imp n (expand_alias ((contents s, imps s) :: chain) y) s)
               | _ => None
               end
     end.
@@ -359,7 +402,7 @@ Section WithClean.
         else
           let s1 := set_cur None (add_obj (f_name fl) (OFun (fun_kind sc fl) async (clean_doc body)) s) in
           set_cur None (fwalk_body in_class inh body s1)
-    | Class nm bases body =>
+    | Class nm bases _ body =>        (* class decorators are kept as raw decorators: no effect on what is documented *)
         let chain := (contents s, imps s) :: outer in
         let rs := map (resolve chain) bases in
         let exc := existsb base_exc rs in
@@ -384,7 +427,7 @@ Section WithClean.
     | With body => fold_left (fun st y => walk_stmt y sc (flow || cf_with) inh outer st) body s
     | For _ body _ => fold_left (fun st y => walk_stmt y sc (flow || cf_for) inh outer st) body s
     | While body _ => fold_left (fun st y => walk_stmt y sc (flow || cf_while) inh outer st) body s
-    | Import ns => fold_left (fun s n => set_imp n None s) ns s
+    | Import ns => fold_left (fun s p => set_imp (fst p) (impval_of (snd p)) s) ns s
     | Other => s
     end.
 
@@ -417,7 +460,7 @@ Section WithClean.
 End WithClean.
 
 (* ---- wire encoding of the result ------------------------------------------------------------------------
-   obj    : (0 kind async doc) | (1 exc doc (entries) (old)) | (2 kind doc ann)
+   obj    : (0 kind async doc) | (1 exc doc (entries) (old) (members: (name tag).. own then inherited)) | (2 kind doc ann)
    entry  : (name obj)        old : (name tag)  tag = 0 function 1 class 2 attribute   (in renaming order)
    doc    : () | (text)       ann : () | (annot)
    fkind  : 0 FUNCTION 1 METHOD 2 CLASS_METHOD 3 STATIC_METHOD
@@ -429,13 +472,16 @@ Definition akind_Z (k : akind) : Z :=
 
 Definition obj_tag (o : obj) : Z := match o with OFun _ _ _ => 0 | OClass _ _ _ _ _ => 1 | OAttr _ _ _ _ => 2 end.
 
+Definition summary_Z (x : summary) : Z := match x with SNonAttr => 0 | SAttr KInstanceVar => 2 | SAttr _ => 1 end.
+
 Definition old_sexp (l : contents_t) : sexp := L (map (fun p => L [of_text (fst p); A (obj_tag (snd p))]) l).
 
 Fixpoint obj_sexp (o : obj) : sexp :=
   match o with
   | OFun k a d => L [A 0; A (fkind_Z k); of_bool a; of_option of_text d]
-  | OClass e d c oo _ =>
-      L [A 1; of_bool e; of_option of_text d; L (map (fun p => L [of_text (fst p); obj_sexp (snd p)]) c); old_sexp oo]
+  | OClass e d c oo ih =>
+      L [A 1; of_bool e; of_option of_text d; L (map (fun p => L [of_text (fst p); obj_sexp (snd p)]) c); old_sexp oo;
+         L (map (fun p => L [of_text (fst p); A (summary_Z (snd p))]) (summary_of c ++ ih))]
   | OAttr k d a _ => L [A 2; A (akind_Z k); of_option of_text d; of_option annot_sexp a]
   end.
 
